@@ -125,6 +125,21 @@ CLAIMED['C15'] = dict(
     technique="Lean 4 theorem (algorithm = outside-in specification, by induction on the directory chain) + bridge + differential chains",
     ref='§7 C15')
 
+CLAIMED['C19'] = dict(
+    text=("Lean model of the five policy functions of the three profiles and theorems that they are the documented policy: a "
+          "Manifest is wanted exactly in the documented directories (C19_want_manifest_iff_documented: packages / categories / "
+          "eclass, licenses, metadata, profiles / metadata/{dtd,glsa,md5-cache,news,xml-schema} / md5-cache/<category>), entry typing "
+          "EBUILD/MISC/AUX under the backwards-compatible profile and DATA elsewhere (C19_entry_type_spec), the default IGNORE table, "
+          "the compression policy as an iff, the loader defaults applied only to unset options. Tie: Bridge.Profile pins every method "
+          "body of profile.py (re-extracted each run); T2: the real policy functions vs the model on all directory shapes to depth 3 "
+          "(228k evaluations, exhaustive over the alphabet); T3: gemato create / edit / update on generated repositories checked "
+          "against the Lean policy functions applied to the on-disk tree, and verification with a plain loader. PARTIAL: that the "
+          "updater consults the policy at the right places (placement of new Manifests, typing of new entries) is established by "
+          "the T3 runs, not by a theorem over a model of the update loop."),
+    note=TB + "AUX typing applies where the path lies below files/ of the Manifest the entry goes into (else DATA, see finding F14).",
+    technique="Lean 4 theorems (policy = documented table) + method-body bridge + exhaustive policy tables + create/update runs",
+    ref='§7 C19')
+
 PENDING = ['C01', 'C02', 'C03', 'C04', 'C05', 'C06', 'C07', 'C08', 'C10', 'C11', 'C12', 'C13', 'C14', 'C15', 'C16',
            'C17', 'C18', 'C19', 'C20']
 
